@@ -226,6 +226,25 @@ class Script:
         if o == 'child_pid':
             w = self.obj(op['var'])
             return {'ret': getattr(getattr(w, '_child', None), 'pid', None)}
+        if o == 'c11_fault':
+            return self.c11_fault(op)
+        if o == 'heal_server':
+            # keep one sick server from poisoning the following histories
+            from pyworkers.remote import RemoteWorker
+            ok = False
+            if self.d.server is not None and self.d.server._child.is_alive():
+                r = with_timeout(lambda: self._probe_once(), 8)
+                ok = r == [True, 49]
+            if not ok:
+                try:
+                    if self.d.server is not None:
+                        os.kill(self.d.server._child.pid, signal.SIGKILL)
+                except Exception:  # noqa
+                    pass
+                self.d.server = None
+                self.d.recorded = {}
+                with_timeout(lambda: self.d.get_server().addr, 20)
+            return {'ret': ok}
         if o == 'fake_server':
             return self.fake_server(op)
         if o == 'land_spec':
@@ -393,6 +412,148 @@ class Script:
         if o == 'tagged':
             return {'ret': tagged_pids(self.run_id, exclude=op.get('exclude', ()))}
         raise ValueError('unknown op %r' % (o,))
+
+    def _probe_once(self):
+        from pyworkers.remote import RemoteWorker
+        from pwv import targets
+        w = RemoteWorker(targets.square, args=[7], host=self.d.get_server().addr)
+        return [w.wait(6), w.result]
+
+    def c11_record(self, rtype):
+        """Run one well-formed request of the given type against the current server and capture the client->server bytes of
+        the data connection (the stream embeds the server address, so it is recorded per server instance)."""
+        import socket as S
+        from pwv import targets
+        from pyworkers.remote import RemoteWorker
+        from pyworkers.persistent_remote import PersistentRemoteWorker
+        from pyworkers.remote_context import RemoteContext
+        srv = self.d.get_server()
+        key = (srv._child.pid, rtype)
+        cache = getattr(self.d, 'recorded', None)
+        if cache is None:
+            cache = self.d.recorded = {}
+        if key in cache:
+            return cache[key]
+        addr = tuple(srv.addr)
+        cap = []
+        real = S.socket.sendall
+
+        def rec(sock, data, *a):
+            try:
+                peer = sock.getpeername()
+            except OSError:
+                peer = None
+            cap.append((peer, bytes(data)))
+            return real(sock, data, *a)
+        if rtype in ('worker-in-ctx', 'ctx-delete'):
+            # needs a registered context first (not recorded)
+            self.d.c11_ctx = getattr(self.d, 'c11_ctx', 0) + 1
+            cid = 'c11-ctx-%d-%d' % (os.getpid(), self.d.c11_ctx)
+            ctx = RemoteContext(cid, host=addr, target=targets.ctx_a)
+        S.socket.sendall = rec
+        try:
+            if rtype == 'worker':
+                w = RemoteWorker(targets.square, args=[3], host=addr)
+            elif rtype == 'pworker':
+                w = PersistentRemoteWorker(targets.square, host=addr)
+            elif rtype == 'worker-in-ctx':
+                w = PersistentRemoteWorker(None, host=addr, context=cid)
+            elif rtype == 'ctx-create':
+                self.d.c11_ctx = getattr(self.d, 'c11_ctx', 0) + 1
+                w = RemoteContext('c11-rec-%d-%d' % (os.getpid(), self.d.c11_ctx), host=addr, target=targets.ctx_a)
+            elif rtype == 'ctx-delete':
+                S.socket.sendall = rec
+                w = None
+                ctx.wait()
+        finally:
+            S.socket.sendall = real
+        stream = b''.join(d for peer, d in cap if peer == addr)
+        # tidy up what the recording created
+        try:
+            if rtype in ('worker', 'pworker', 'worker-in-ctx'):
+                w.terminate(timeout=2)
+            if rtype == 'worker-in-ctx':
+                ctx.wait()
+            if rtype == 'ctx-create':
+                w.wait()
+        except Exception:  # noqa
+            pass
+        import struct
+        hlen = 4 + struct.unpack('!I', stream[:4])[0]
+        cache[key] = (stream, hlen)
+        return cache[key]
+
+    def c11_fault(self, op):
+        import socket as S
+        import struct
+        from pyworkers.remote import recv_msg
+        rtype = op['rtype']
+        st, val = self.raw(lambda: self.c11_record(rtype), 30)
+        if st != 'ret':
+            return {'harness_error': 'recording failed: %s %s' % (st, val)}
+        stream, hlen = val
+        addr = tuple(self.d.get_server().addr)
+        fault = op['fault']
+
+        def end(sock, how):
+            try:
+                if how == 'RST':
+                    sock.setsockopt(S.SOL_SOCKET, S.SO_LINGER, struct.pack('ii', 1, 0))
+                sock.close()
+            except OSError:
+                pass
+
+        def f():
+            sk = S.socket(S.AF_INET, S.SOCK_STREAM)
+            sk.settimeout(8)
+            sk.connect(addr)
+            kind = fault['kind']
+            if kind == 'connect-close':
+                end(sk, fault.get('ending', 'FIN'))
+                return 'done'
+            if kind == 'cut':
+                cut = fault['cut'] if fault['cut'] >= 0 else len(stream) + 1 + fault['cut']
+                cut = min(cut, len(stream))
+                sk.sendall(stream[:cut])
+                time.sleep(0.01)
+                end(sk, fault['ending'])
+                return 'done'
+            if kind == 'garbage':
+                body = bytes((i * 37 + 11) % 256 for i in range(len(stream) - hlen - 4))
+                sk.sendall(stream[:hlen] + struct.pack('!I', len(body)) + body)
+                time.sleep(0.05)
+                end(sk, 'FIN')
+                return 'done'
+            # control-channel steps (worker requests)
+            sk.sendall(stream)
+            ctl_addr = recv_msg(sk)
+            if kind == 'ctrl-never-connect':
+                end(sk, fault.get('ending', 'FIN'))
+                return 'done'
+            cs = S.socket(S.AF_INET, S.SOCK_STREAM)
+            cs.settimeout(8)
+            cs.connect(tuple(ctl_addr))
+            if kind == 'ctrl-connect-close':
+                end(cs, fault.get('ending', 'FIN'))
+                end(sk, fault.get('ending', 'FIN'))
+                return 'done'
+            info = recv_msg(cs)
+            if kind == 'close-after-info':
+                end(cs, fault.get('ending', 'FIN'))
+                end(sk, fault.get('ending', 'FIN'))
+            elif kind == 'close-only-data':
+                end(sk, fault.get('ending', 'FIN'))
+                time.sleep(0.3)
+                end(cs, 'FIN')
+            elif kind == 'close-only-ctrl':
+                end(cs, fault.get('ending', 'FIN'))
+                time.sleep(0.3)
+                end(sk, 'FIN')
+            return 'done'
+        r = self.call(f, 15)
+        r['stream_len'] = len(stream)
+        r['header_len'] = hlen
+        return r
 
     def fake_server(self, op):
         """A scripted peer playing the server side of the handshake: the control-address message on the data connection and
